@@ -136,6 +136,23 @@ def fresh_chain(cfg: CFG, node: Node, name: str, *, sources=(), params=(), _seen
                 f'`{name}` used at L{node.lineno} is not re-assigned on every path around the loop at L{Ln.lineno}: '
                 f'a value from an earlier iteration can be used again ({fmt_path(cfg, [node.id] + seg1)} → {fmt_path(cfg, seg2)})'
             ]
+        # loop-carried but re-assigned after every use (fetched at the end of an iteration for the next one):
+        # acceptable only if what is carried over is itself an origin (a fresh `get`), not a value computed
+        # from other names -- a computed value that survives the back edge is a stale value in disguise
+        rd_all = reaching_defs(cfg, name, start=cfg.entry).get(node.id, frozenset())
+        body = {k.id for k in cfg.nodes if L in k.loops}
+        for d in rd_all:
+            if d not in body:
+                continue
+            dn = cfg.nodes[d]
+            # does this def reach the use only around the back edge?  (defs earlier in the same iteration do not)
+            if path_avoiding(cfg, cfg.normal_succ(d), {node.id}, avoid={L}, edge_ok=edge_ok) is not None and d != node.id:
+                continue
+            v = getattr(dn.ast, 'value', None)
+            u = unwrap_await(v) if v is not None else None
+            if v is None or is_get_call(v) or (isinstance(u, ast.Call) and dotted(u.func) in sources):
+                continue
+            return [f'`{name}` used at L{node.lineno} can still hold the value computed at L{dn.lineno} in the previous iteration (`{norm_text(dn.ast)[:50]}`): a value derived from an earlier request survives into this one']
     da0 = definitely_assigned(cfg, start=cfg.entry)
     if node.id in da0 and name not in da0[node.id] and name not in assigned_names(node):
         return [f'`{name}` used at L{node.lineno} may be unbound on the first iteration']
